@@ -482,6 +482,24 @@ func c20Totality(r *eng.Run) {
 				}
 			}
 		}
+		// long coefficients (every size path of Compose): the caller's slice, including its spare capacity, stays untouched
+		for _, K := range SmallShapes() {
+			for _, z := range []int{0, 19, 38, 40, 57, 60, 76, 80, 95, 100, 120, 300} {
+				c := new(big.Int).Mul(K, ref.Pow10(z))
+				backing := append(append(make([]byte, 0, len(c.Bytes())+24), c.Bytes()...), bytes.Repeat([]byte{0xa5}, 16)...)
+				sig := backing[:len(c.Bytes())]
+				snap := append([]byte(nil), backing...)
+				for _, e := range []int32{int32(-z), int32(ref.MaxQ - z), int32(ref.MinQ - z), 0} {
+					var d dec.Decimal
+					p, msg := guard(func() { d.Compose(0, z%2 == 1, sig, e) })
+					w.Eval()
+					if p || !bytes.Equal(backing, snap) {
+						w.R.Fail(eng.Case{Op: "pure:Compose", Args: []string{fmt.Sprintf("%v*10^%d", K, z), fmt.Sprint(e)}, Got: fmt.Sprint("panic=", p, " ", msg, " slice-modified=", !bytes.Equal(backing, snap)), Want: "no panic, coefficient slice (and its spare capacity) untouched"})
+						copy(backing, snap)
+					}
+				}
+			}
+		}
 		big1 := bytes.Repeat([]byte{0xff}, 100000)
 		if p, msg := guard(func() { var d dec.Decimal; d.Compose(0, false, big1, 0); d.UnmarshalBinary(big1) }); p {
 			w.R.Fail(eng.Case{Op: "total:bytes", Args: []string{"100000 x ff"}, Got: "panic: " + msg, Want: "no panic"})
